@@ -37,10 +37,10 @@ for name in names:
             prop, tier = cb.split()
             e = dict(ENV, VERIF_REPO=wt)
             if tier == "thorough":
-                e["VERIF_BUDGET_S"] = "90"
+                e["VERIF_BUDGET_S"] = "240" if prop == "C08" else "90"
             if prop == "C15":
                 e["VERIF_C15_OUT"] = tempfile.mkdtemp(prefix="c15out-")
-            rcx, out = sh("/verif/check %s %s" % (prop, tier), env=e)
+            rcx, out = sh("%s/check %s %s" % (os.environ.get("VERIF_HOME", "/verif"), prop, tier), env=e)
             if prop == "C15":
                 shutil.rmtree(e["VERIF_C15_OUT"], ignore_errors=True)
             if rcx == 1:
